@@ -176,10 +176,10 @@ theorem concatPairs_fixed (gk gv : GoVal → FRes Bytes) (n m : Nat) :
     try dsimp only at e1 e2
     simp [e1, e2, e3, Nat.add_mul]; omega
 
-theorem fastFields_blength (P : Prog) (g : Ty → GoVal → FRes Bytes) (h : Ty → GoVal → FRes Nat) :
+theorem fastFields_blength (c : Bool) (P : Prog) (g : Ty → GoVal → FRes Bytes) (h : Ty → GoVal → FRes Nat) :
     ∀ (l : List (FieldDef × GoVal)) (bs : Bytes),
       (∀ p ∈ l, ∀ b, g p.1.ty p.2 = .ok b → h p.1.ty p.2 = .ok b.length) →
-      fastFields P g l = .ok bs → blengthFields P h l = .ok bs.length := by
+      fastFields c P g l = .ok bs → blengthFields c P h l = .ok bs.length := by
   intro l
   induction l with
   | nil => intro bs _ hc; simp [fastFields] at hc; cases hc; simp [blengthFields]
@@ -201,15 +201,15 @@ theorem fastFields_blength (P : Prog) (g : Ty → GoVal → FRes Bytes) (h : Ty 
       simp only [hw]
       exact ih bs (fun q hq => hp q (by simp [hq])) hc
 
-theorem fastAny_fixed (P : Prog) (fuel : Nat) (ty : Ty) (v : GoVal) (bs : Bytes) (hz : 0 < fixedSize ty)
-    (h : fastAny P (fuel + 1) ty v = .ok bs) : bs.length = fixedSize ty := by
+theorem fastAny_fixed (c : Bool) (P : Prog) (fuel : Nat) (ty : Ty) (v : GoVal) (bs : Bytes) (hz : 0 < fixedSize ty)
+    (h : fastAny c P (fuel + 1) ty v = .ok bs) : bs.length = fixedSize ty := by
   cases ty <;> simp [fixedSize] at hz <;> cases v <;> simp [fastAny] at h <;> subst h <;> simp [fixedSize, be_length]
 
 
 theorem fixedSize_pos_cases (ty : Ty) : 0 < fixedSize ty ∨ fixedSize ty = 0 := by omega
 
-theorem blengthAny_exact (P : Prog) : ∀ (fuel : Nat) (ty : Ty) (v : GoVal) (bs : Bytes),
-    fastAny P fuel ty v = .ok bs → blengthAny P fuel ty v = .ok bs.length := by
+theorem blengthAny_exact (c : Bool) (P : Prog) : ∀ (fuel : Nat) (ty : Ty) (v : GoVal) (bs : Bytes),
+    fastAny c P fuel ty v = .ok bs → blengthAny c P fuel ty v = .ok bs.length := by
   intro fuel
   induction fuel with
   | zero => intro ty v bs h; simp [fastAny] at h
@@ -217,7 +217,7 @@ theorem blengthAny_exact (P : Prog) : ∀ (fuel : Nat) (ty : Ty) (v : GoVal) (bs
     intro ty v bs h
     rcases fixedSize_pos_cases ty with hz | hz
     · -- fixed-size categories: `off += sz`
-      have hl := fastAny_fixed P fuel ty v bs hz h
+      have hl := fastAny_fixed c P fuel ty v bs hz h
       unfold blengthAny
       simp [wireSizeOf_eq, hz, hl]
     · have hnz : ¬ 0 < wireSizeOf P ty := by rw [wireSizeOf_eq]; omega
@@ -240,13 +240,13 @@ theorem blengthAny_exact (P : Prog) : ∀ (fuel : Nat) (ty : Ty) (v : GoVal) (bs
         cases hb
         simp only []
         rcases fixedSize_pos_cases e with he | he
-        · have hl := concatWith_fixed (fastAny P fuel e) (fixedSize e) xs s
+        · have hl := concatWith_fixed (fastAny c P fuel e) (fixedSize e) xs s
             (fun x _ b hb => by
               cases fuel with
               | zero => simp [fastAny] at hb
-              | succ f => exact fastAny_fixed P f e x b he hb) hs
+              | succ f => exact fastAny_fixed c P f e x b he hb) hs
           simp [wireSizeOf_eq, he, hl, be_length]; omega
-        · have hs' := concatWith_sum (fastAny P fuel e) (blengthAny P fuel e) xs s (fun x _ b hb => ih e x b hb) hs
+        · have hs' := concatWith_sum (fastAny c P fuel e) (blengthAny c P fuel e) xs s (fun x _ b hb => ih e x b hb) hs
           simp [wireSizeOf_eq, he, hs', bind, be_length]; omega
       case set.list e xs =>
         simp only [FRes.bind_eq_ok] at h
@@ -254,37 +254,37 @@ theorem blengthAny_exact (P : Prog) : ∀ (fuel : Nat) (ty : Ty) (v : GoVal) (bs
         cases hb
         simp only []
         rcases fixedSize_pos_cases e with he | he
-        · have hl := concatWith_fixed (fastAny P fuel e) (fixedSize e) xs s
+        · have hl := concatWith_fixed (fastAny c P fuel e) (fixedSize e) xs s
             (fun x _ b hb => by
               cases fuel with
               | zero => simp [fastAny] at hb
-              | succ f => exact fastAny_fixed P f e x b he hb) hs
+              | succ f => exact fastAny_fixed c P f e x b he hb) hs
           simp [wireSizeOf_eq, he, hl, be_length]; omega
-        · have hs' := concatWith_sum (fastAny P fuel e) (blengthAny P fuel e) xs s (fun x _ b hb => ih e x b hb) hs
+        · have hs' := concatWith_sum (fastAny c P fuel e) (blengthAny c P fuel e) xs s (fun x _ b hb => ih e x b hb) hs
           simp [wireSizeOf_eq, he, hs', bind, be_length]; omega
       case map.map k w kvs =>
         simp only [FRes.bind_eq_ok] at h
         obtain ⟨s, hs, hb⟩ := h
         cases hb
         simp only []
-        have fixk : 0 < fixedSize k → ∀ p ∈ kvs, ∀ b, fastAny P fuel k p.1 = .ok b → b.length = fixedSize k := by
+        have fixk : 0 < fixedSize k → ∀ p ∈ kvs, ∀ b, fastAny c P fuel k p.1 = .ok b → b.length = fixedSize k := by
           intro hk p _ b hb
           cases fuel with
           | zero => simp [fastAny] at hb
-          | succ f => exact fastAny_fixed P f k p.1 b hk hb
-        have fixw : 0 < fixedSize w → ∀ p ∈ kvs, ∀ b, fastAny P fuel w p.2 = .ok b → b.length = fixedSize w := by
+          | succ f => exact fastAny_fixed c P f k p.1 b hk hb
+        have fixw : 0 < fixedSize w → ∀ p ∈ kvs, ∀ b, fastAny c P fuel w p.2 = .ok b → b.length = fixedSize w := by
           intro hw p _ b hb
           cases fuel with
           | zero => simp [fastAny] at hb
-          | succ f => exact fastAny_fixed P f w p.2 b hw hb
+          | succ f => exact fastAny_fixed c P f w p.2 b hw hb
         rcases fixedSize_pos_cases k with hk | hk <;> rcases fixedSize_pos_cases w with hw | hw
         · have hl := concatPairs_fixed _ _ _ _ kvs s (fixk hk) (fixw hw) hs
           simp [wireSizeOf_eq, hk, hw, hl, be_length]; omega
-        · obtain ⟨t, ht, hl⟩ := concatPairs_keyfixed _ _ (blengthAny P fuel w) _ kvs s (fixk hk) (fun p _ b hb => ih w p.2 b hb) hs
+        · obtain ⟨t, ht, hl⟩ := concatPairs_keyfixed _ _ (blengthAny c P fuel w) _ kvs s (fixk hk) (fun p _ b hb => ih w p.2 b hb) hs
           simp [wireSizeOf_eq, hk, hw, ht, hl, bind, be_length]; omega
-        · obtain ⟨t, ht, hl⟩ := concatPairs_valfixed _ _ (blengthAny P fuel k) _ kvs s (fun p _ b hb => ih k p.1 b hb) (fixw hw) hs
+        · obtain ⟨t, ht, hl⟩ := concatPairs_valfixed _ _ (blengthAny c P fuel k) _ kvs s (fun p _ b hb => ih k p.1 b hb) (fixw hw) hs
           simp [wireSizeOf_eq, hk, hw, ht, hl, bind, be_length]; omega
-        · have hl := concatPairs_sum _ _ (blengthAny P fuel k) (blengthAny P fuel w) kvs s
+        · have hl := concatPairs_sum _ _ (blengthAny c P fuel k) (blengthAny c P fuel w) kvs s
             (fun p _ b hb => ih k p.1 b hb) (fun p _ b hb => ih w p.2 b hb) hs
           simp [wireSizeOf_eq, hk, hw, hl, bind, be_length]; omega
       case struct.strct i fs =>
@@ -299,7 +299,7 @@ theorem blengthAny_exact (P : Prog) : ∀ (fuel : Nat) (ty : Ty) (v : GoVal) (bs
             simp only [FRes.bind_eq_ok] at h
             obtain ⟨s, hs, hb⟩ := h
             cases hb
-            have := fastFields_blength P (fastAny P fuel) (blengthAny P fuel) (sortFields sd.fields fs) s
+            have := fastFields_blength c P (fastAny c P fuel) (blengthAny c P fuel) (sortFields sd.fields fs) s
               (fun p _ b hb => ih p.1.ty p.2 b hb) hs
             simp [hlen, this, bind]
 
